@@ -359,6 +359,12 @@ package app
 //@   requires appInv(app) && msg != nil
 //@   assigns mapof(map[common.Address]struct{})
 //@   ensures ret0.Code != 0 ==> (len(ret0.Events) == 0 && seenUnchanged(app))
+//@ // polynomial evaluations are decoded with SetBytes: non-nil and non-negative, which is what their event
+//@ // encoding (big-endian bytes, C14) needs
+//@ func ParseApologyMsg
+//@   requires msg != nil
+//@   ensures ret1 == nil ==> (ret0 != nil && bigsOK(ret0.PolyEval))
+//@   invariant forall j :: 0 <= j && j < len(polyEval) ==> (polyEval[j] != nil && bigval(polyEval[j]) >= 0)
 //@ func (*ShutterApp).handleApologyMsg
 //@   requires appInv(app) && msg != nil
 //@   assigns mapof(map[common.Address]struct{})
